@@ -20,8 +20,19 @@ def derive_list(L):
     return ts
 
 
-def item_src(L, entry, order=0):
+def generic_slot(L):
+    """(variant index, field index) of the first field without helper attributes: its type can be a type parameter"""
+    for vi, v in enumerate(L["variants"]):
+        for j, f in enumerate(v["fields"]):
+            if all(o == cf.NOOPT for o in f["cmp"].values()):
+                return vi, j
+    return None
+
+
+def item_src(L, entry, order=0, generic=False):
     ts = derive_list(L)
+    slot = generic_slot(L) if generic else None
+    gp = "<G>" if slot else ""
     if order == 1:
         ts = list(reversed(ts))
     if entry == "attr":
@@ -32,12 +43,12 @@ def item_src(L, entry, order=0):
         k = max(1, len(ts) // 2)
         head = "#[derive(::derive_ex::Ex)] #[derive_ex(%s)] #[derive_ex(%s)]" % (", ".join(ts[:k]), ", ".join(ts[k:]))
 
-    def fields(v):
+    def fields(v, vi=0):
         fs = []
         for j, f in enumerate(v["fields"]):
             f = dict(f, kty="eq")
             a = cf.attrs_src(f, L["mode"])
-            fs.append("%s %s%s" % (a, ("pub f%d: " % j) if v["shape"] == "named" else "pub " if L["kind"] == "struct" else "", W))
+            fs.append("%s %s%s" % (a, ("pub f%d: " % j) if v["shape"] == "named" else "pub " if L["kind"] == "struct" else "", "G" if slot == (vi, j) else W))
         if L["kind"] == "enum":
             fs = [x.replace("pub ", "") for x in fs]
         if v["shape"] == "named":
@@ -47,11 +58,11 @@ def item_src(L, entry, order=0):
         return ""
     if L["kind"] == "struct":
         v = L["variants"][0]
-        return "%s pub struct Lf%s%s" % (head, fields(v), "" if v["shape"] == "named" else ";")
+        return "%s pub struct Lf%s%s%s" % (head, gp, fields(v), "" if v["shape"] == "named" else ";")
     vs = []
     for i, v in enumerate(L["variants"]):
-        vs.append("%s%s%s" % ("#[default] " if L["dvar"] == i + 1 else "", v["name"], fields(v)))
-    return "%s pub enum Lf { %s }" % (head, ", ".join(vs))
+        vs.append("%s%s%s" % ("#[default] " if L["dvar"] == i + 1 else "", v["name"], fields(v, i)))
+    return "%s pub enum Lf%s { %s }" % (head, gp, ", ".join(vs))
 
 
 def path(L, vi):
@@ -76,7 +87,7 @@ def pat(L, vi, names):
     return path(L, vi)
 
 
-def helpers(L):
+def helpers(L, generic=False):
     """user-side helpers written by hand (no derived code): projection of a value and a copy that calls nothing on W"""
     arms_p, arms_d = [], []
     for vi, v in enumerate(L["variants"], 1):
@@ -86,22 +97,23 @@ def helpers(L):
         fargs = "".join(", %s.0, %s.1" % (x, x) for x in names)
         arms_p.append("            %s => format!(\"{{\\\"v\\\":%d,\\\"f\\\":[%s]}}\"%s)," % (pat(L, vi, names), vi, fs, fargs))
         arms_d.append("            %s => %s," % (pat(L, vi, names), ctor(L, vi, ["%s(%s.0, %s.1)" % (W, x, x) for x in names])))
-    return ("    fn proj(x: &Lf) -> String {\n        match x {\n%s\n        }\n    }\n"
-            "    fn dup(x: &Lf) -> Lf {\n        match x {\n%s\n        }\n    }\n"
+    alias = "    type LfT = Lf%s;\n" % ("<%s>" % W if generic and generic_slot(L) else "")
+    return (alias + "    fn proj(x: &LfT) -> String {\n        match x {\n%s\n        }\n    }\n"
+            "    fn dup(x: &LfT) -> LfT {\n        match x {\n%s\n        }\n    }\n"
             "    fn code(o: ::core::option::Option<::core::cmp::Ordering>) -> i32 { match o { ::core::option::Option::None => 2, ::core::option::Option::Some(::core::cmp::Ordering::Less) => -1, "
             "::core::option::Option::Some(::core::cmp::Ordering::Equal) => 0, ::core::option::Option::Some(::core::cmp::Ordering::Greater) => 1 } }\n"
             % ("\n".join(arms_p), "\n".join(arms_d)))
 
 
-def life_module(idx, L, hist, entry, order=0, variables=("a", "b", "c")):
+def life_module(idx, L, hist, entry, order=0, variables=("a", "b", "c"), generic=False):
     vs = list(variables)
     n1 = len(L["variants"][0]["fields"])
     first = ctor(L, 1, ["%s(0, %d)" % (W, j) for j in range(n1)])
     pool = "format!(\"{{%s}}\", %s)" % (",".join("\\\"%s\\\":{}" % v for v in vs), ", ".join("proj(&p%s)" % v for v in vs))
-    lines = ["pub mod m%d {" % idx, "    " + item_src(L, entry, order), helpers(L), "    pub fn run() -> String {",
+    lines = ["pub mod m%d {" % idx, "    " + item_src(L, entry, order, generic), helpers(L, generic), "    pub fn run() -> String {",
              "        let mut out = String::new();"]
     for v in vs:
-        lines.append("        let mut p%s: Lf = %s;" % (v, first))
+        lines.append("        let mut p%s: LfT = %s;" % (v, first))
     lines.append("        out.push_str(&format!(\"{{\\\"id\\\":%d,\\\"k\\\":0,\\\"post\\\":{}}}\\n\", %s));" % (idx, pool))
     for k, x in enumerate(hist, 1):
         act, d, a, b = x["act"], x["d"], x["a"], x["b"]
@@ -109,7 +121,7 @@ def life_module(idx, L, hist, entry, order=0, variables=("a", "b", "c")):
         if act == "set":
             call = "p%s = %s;" % (d, ctor(L, x["vi"], ["%s(%d, %d)" % (W, v, j) for j, v in enumerate(x["vals"])]))
         elif act == "default":
-            call = "p%s = <Lf as ::core::default::Default>::default();" % d
+            call = "p%s = <LfT as ::core::default::Default>::default();" % d
         elif act == "clone":
             call = "p%s = ::core::clone::Clone::clone(&p%s);" % (d, a)
         elif act == "clone_from":
